@@ -2,6 +2,7 @@ package main
 
 import (
 	"fmt"
+	"sort"
 	"go/token"
 	"go/types"
 	"math/big"
@@ -200,6 +201,24 @@ func (e *fnEnc) backEdgeObligations(c *blockCtx, header *ssa.BasicBlock, cond Te
 		old := e.ghostVars[fmt.Sprintf("!measure.%d.%d", li.ord, i)]
 		be.dec = append(be.dec, and(le(intLit(0), old), lt(m.t, old)))
 	}
+	// implicit frame invariant
+	if e.pi().pass == 2 {
+		r := e.declare("frame.r", SInt)
+		if goals, ok := e.frameGoals(c.st, r.S); ok {
+			var gs []Term
+			var ks []string
+			for k := range goals {
+				ks = append(ks, k)
+			}
+			sort.Strings(ks)
+			for _, k := range ks {
+				gs = append(gs, goals[k])
+			}
+			be.frame = and(gs...)
+		} else {
+			be.frame = tFalse
+		}
+	}
 	e.backGoals[li.ord] = append(e.backGoals[li.ord], be)
 	for phi, t := range saved {
 		e.vals[phi] = t
@@ -210,6 +229,7 @@ type backEdgeGoals struct {
 	cond Term
 	inv  []Term
 	dec  []Term
+	frame Term
 }
 
 // val2 evaluates an edge value where phis of the same header must be read with their pre-update value.
@@ -682,7 +702,7 @@ func (e *fnEnc) alloc(c *blockCtx, in *ssa.Alloc) {
 		e.zeroStruct(c.st, si, r)
 	case *types.Array:
 		es := e.sortOf(u.Elem())
-		comp, cs := e.elemComp(es)
+		comp, cs := e.elemCompT(u.Elem())
 		arr := e.heapGet2(c.st, comp, cs)
 		inner := ArrayOf(SInt, es)
 		e.setHeap(c.st, comp, store(arr, r, app(inner, fmt.Sprintf("(as const %s)", inner), e.zeroOfSort(es, u.Elem()))))
@@ -852,7 +872,7 @@ func (e *fnEnc) load(c *blockCtx, in *ssa.UnOp) {
 	}
 	if _, isArr := types.Unalias(pt).Underlying().(*types.Array); isArr {
 		es := e.sortOf(pt.Underlying().(*types.Array).Elem())
-		comp, cs := e.elemComp(es)
+		comp, cs := e.elemCompT(pt.Underlying().(*types.Array).Elem())
 		e.defineLoaded(c, in, sel(e.heapGet2(c.st, comp, cs), p, ArrayOf(SInt, es)), pt)
 		return
 	}
@@ -882,8 +902,7 @@ func (e *fnEnc) store(c *blockCtx, in *ssa.Store) {
 		return
 	}
 	if at, isArr := types.Unalias(pt).Underlying().(*types.Array); isArr {
-		es := e.sortOf(at.Elem())
-		comp, cs := e.elemComp(es)
+		comp, cs := e.elemCompT(at.Elem())
 		e.setHeap(c.st, comp, store(e.heapGet2(c.st, comp, cs), p, v))
 		return
 	}
@@ -964,7 +983,7 @@ func (e *fnEnc) makeSlice(c *blockCtx, in *ssa.MakeSlice) {
 	cp := e.toInt(e.val(in.Cap), in.Cap.Type())
 	et := in.Type().Underlying().(*types.Slice).Elem()
 	es := e.sortOf(et)
-	comp, cs := e.elemComp(es)
+	comp, cs := e.elemCompT(et)
 	inner := ArrayOf(SInt, es)
 	e.setHeap(c.st, comp, store(e.heapGet2(c.st, comp, cs), r, app(inner, fmt.Sprintf("(as const %s)", inner), e.zeroOfSort(es, et))))
 	if !e.mayPanic {
@@ -1026,7 +1045,7 @@ func (e *fnEnc) convert(c *blockCtx, x Term, from, to types.Type) Term {
 				if es != SInt {
 					e.fail("[]byte conversion in bv mode")
 				}
-				comp, cs := e.elemComp(es)
+				comp, cs := e.elemCompT(sl.Elem())
 				e.setHeap(c.st, comp, store(e.heapGet2(c.st, comp, cs), r, strArr(x)))
 				return app(SSlice, "mk-slice", r, strOff(x), strLen(x), strLen(x))
 			}
@@ -1039,7 +1058,7 @@ func (e *fnEnc) convert(c *blockCtx, x Term, from, to types.Type) Term {
 				if es != SInt {
 					e.fail("string(bytes) conversion in bv mode")
 				}
-				comp, cs := e.elemComp(es)
+				comp, cs := e.elemCompT(sl.Elem())
 				arr := sel(e.heapGet2(c.st, comp, cs), slBase(x), ArrayOf(SInt, SInt))
 				return app(SStr, "mk-str", arr, slOff(x), slLen(x))
 			}
